@@ -120,11 +120,16 @@ func workC15(req *Request, set []byte) {
 		}
 		api = a
 		first = apiSchemas(a)
-		t, terr := exportTerm(first)
+		t, terr := descgen.APITerm(a)
 		if terr != nil {
 			o.Extra = "dump: " + terr.Error()
 		}
 		o.Term = t
+		n := 0
+		for _, m := range first {
+			n += len(m)
+		}
+		o.Count = n
 	})
 	// the export loses nothing of the reflected schema objects but Kind / WellKnownTypeName of scalars:
 	// the reader's own objects, dumped member by member, against the dump of their ToJ5Root()
